@@ -115,8 +115,8 @@ SPEC = {
         "the statement reduces colliding *points*, so also when whole sub-fibers collide above the leaf rank merge_fn is owed "
         "exactly the values of the points that are there (an absent entry is not a point; the oracle reduces the raw colliding "
         "values).  Multi-level merges apply merge_fn hierarchically, so only associative and commutative functions are used with "
-        "levels > 1.  TEMPORARY guard pending decision (defect candidate): not generated - leaf default != 0 with levels > 1 when "
-        "the merge ends above the leaf rank (a leaf value 0 of an intermediate level is taken as absent by the next level)",
+        "levels > 1 (also with a non-zero leaf default, where a leaf value 0 of an intermediate level is a value like any other: "
+        "the fibers built for one level lost the leaf default until the repository fix recorded in known_findings.json)",
         "second use of a flattened tensor (clause result-transformed-again): tensor-level flatten(tuple / pair) results that passed "
         "the oracle and keep a rank below the combined one; second transform = flattenRanks(depth, 1, tuple / pair) or "
         "mergeRanks(depth, 1, absolute, default merge_fn); only its content / WF / RC / containment are judged (its rank ids are "
@@ -509,11 +509,6 @@ def _merge_legal(c):
     for a single merged level."""
     if c["fn"] == "count" and c["l"] != 1:
         return False
-    if c["default"] != 0 and c["l"] > 1 and c["d"] + c["l"] < c["depth"] - 1:
-        # TEMPORARY guard pending decision: defect candidate - a multi-level merge that ends above the leaf rank, leaf default
-        # != 0: the fibers _mergeToFibertree builds for one level carry default 0, so a merged (or stored) leaf value 0 is
-        # taken as absent by the union of the next level (prod(0, 5, 3) gives 3; the point is dropped when all are 0)
-        return False
     return True
 
 
@@ -794,7 +789,7 @@ def _outside_declared_shape(t):
     return bad, sum(1 for sh in shapes if sh is not None)
 
 
-def _judge(ctx, op, desc, res, expected, clause="content", style=None, tags=(), alt=None, ctags=(), cls_op=None, ids=None):
+def _judge(ctx, op, desc, res, expected, clause="content", style=None, tags=(), alt=None, ctags=(), cls_op=None, ids=None, alt_pred=None):
     """WF / RC of a result and its content (read with the operand's default) against the expected map.
     `tags` qualify WF/RC keys (and the content key of a malformed result), `ctags` the content key;
     `alt` = (name, content map) of a recognised wrong model; `ids` = rank ids a round trip has to restore
@@ -862,6 +857,9 @@ def _judge(ctx, op, desc, res, expected, clause="content", style=None, tags=(), 
         wrong = [p for p in expected if p in got and got[p] != expected[p]]
         if alt is not None and got == alt[1]:
             key = _class_key(op, (alt[0],), "content")
+        elif alt_pred is not None and alt_pred[1](missing, extra, wrong):
+            # a recognised input class + a disagreement of the recognised shape (mechanism-level key of a known finding)
+            key = _class_key(op, (alt_pred[0],), "content")
         elif tuple(ctags) + (tuple(tags) if wfp else ()):
             key = _class_key(cls_op or op, tuple(ctags) + (tuple(tags) if wfp else ()), "content")
         else:
@@ -1446,7 +1444,23 @@ def _run_merge(ctx):
     if not ok:
         return False, len(c0)
     ctags = _inner_tag(stored, d, l) if default != 0 else ()
-    good = _judge(ctx, op, desc, r, exp, style=style, tags=tags, alt=alt, ctags=ctags)
+    # recognised class (known finding): a merge of more than two ranks that ends above the leaf rank, leaf default != 0.  The fibers
+    # the library builds for one level carry default 0, so a value 0 (stored, or the result of merging one level) is taken as
+    # absent by the union of the next level.  Only disagreements confined to points whose colliding values hold a 0 or can
+    # cancel to 0 get the class key; anything else in this class keeps the general key.
+    def _zero_explains(missing, extra, wrong):
+        if extra:
+            return False
+        for q in list(missing) + list(wrong):
+            vals = [e[1] for e in groups.get(q, [])]
+            if not (0 in vals or (fn in (None, "sum") and any(v > 0 for v in vals) and any(v < 0 for v in vals))):
+                return False
+        return True
+    alt_pred = (("multi-level-above-leaf+nonzero-default+zero-taken-as-absent", _zero_explains)
+                if default != 0 and l > 1 and d + l < D - 1 else None)
+    if alt_pred:
+        mon.count("multi_level_merges_above_leaf_nonzero_default")
+    good = _judge(ctx, op, desc, r, exp, style=style, tags=tags, alt=alt, ctags=ctags, alt_pred=alt_pred)
     mon.count("collisions_merged", ncoll)
     if good:
         mon.count(f"merge_fanin:{fclass}")
